@@ -70,10 +70,17 @@ class Sym:
     name: str
 
 
+_NO = object()
+
+
 class AbsInt:
-    def __init__(self, on_stmt: Callable[[ast.stmt, dict], None] | None = None, calls: dict[str, Callable[..., Any]] | None = None):
+    def __init__(self, on_stmt: Callable[[ast.stmt, dict], None] | None = None, calls: dict[str, Callable[..., Any]] | None = None, program: Any = None, module: str | None = None,
+                 depth: int = 0):
         self.on_stmt = on_stmt
         self.calls = calls or {}
+        self.program = program  # sa.loader.Program: lets small helpers of the library (and NamedTuple records) be evaluated instead of answering UNKNOWN
+        self.module = module
+        self.depth = depth
         self.raised: list[ast.Raise] = []
         self.undecided: list[ast.AST] = []  # `if` tests that evaluated to UNKNOWN (both branches were followed)
         self.returns: list[Any] = []
@@ -253,7 +260,66 @@ class AbsInt:
             if isinstance(args[0], Cls):
                 return ast.unparse(c.args[1]) in args[0].bases or UNKNOWN
             return UNKNOWN
+        r = self._call_library(c, f, name, args, env)
+        if r is not _NO:
+            return r
         return UNKNOWN
+
+    def _call_library(self, c: ast.Call, f: ast.AST, name: str | None, args: list, env: dict) -> Any:
+        """A call of a small function / method / NamedTuple class defined in the library: evaluated (bounded depth) instead of unknown."""
+        prog = self.program
+        if prog is None or self.depth >= 3 or c.keywords and any(k.arg is None for k in c.keywords):
+            return _NO
+        kwargs = {k.arg: self.ev(k.value, env) for k in c.keywords}
+        # NamedTuple record: Cls(a, b, c) -> Rec with the declared field order
+        cname = name if name else (f.attr if isinstance(f, ast.Attribute) else None)
+        ci = getattr(prog, 'classes', {}).get(cname) if cname else None
+        if ci is not None and any(ast.unparse(b).split('.')[-1] == 'NamedTuple' for b in ci.node.bases):
+            fields = [st.target.id for st in ci.node.body if isinstance(st, ast.AnnAssign) and isinstance(st.target, ast.Name)]
+            vals = dict(zip(fields, args))
+            vals.update(kwargs)
+            if set(vals) == set(fields):
+                rec = Rec(**vals)
+                rec['_order'] = tuple(fields)
+                return rec
+            return _NO
+        target = None
+        recv = None
+        if isinstance(f, ast.Attribute):
+            recv = self.ev(f.value, env)
+            cls_name = recv.cls if isinstance(recv, Obj) else (recv.get('_cls') if isinstance(recv, Rec) else None)
+            if cls_name:
+                target = prog.method(cls_name, f.attr) if hasattr(prog, 'method') else None
+        elif name and self.module:
+            mi = prog.modules.get(self.module)
+            target = mi.functions.get(name) if mi is not None and hasattr(mi, 'functions') else None
+        if target is None:
+            return _NO
+        fn = target.node
+        body = [st for st in fn.body if not (isinstance(st, ast.Expr) and isinstance(st.value, ast.Constant))]
+        if len(list(ast.walk(fn))) > 400 or isinstance(fn, ast.AsyncFunctionDef) or any(isinstance(x, (ast.For, ast.While, ast.Yield, ast.Await)) for x in ast.walk(fn)):
+            return _NO
+        params = [a.arg for a in fn.args.posonlyargs + fn.args.args]
+        decos = [ast.unparse(d) for d in fn.decorator_list]
+        sub_env: dict = {}
+        if target.cls and 'staticmethod' not in decos and params:
+            sub_env[params[0]] = recv
+            params = params[1:]
+        for p_, v in zip(params, args):
+            sub_env[p_] = v
+        sub_env.update(kwargs)
+        defaults = dict(zip([a.arg for a in (fn.args.posonlyargs + fn.args.args)][-len(fn.args.defaults):], fn.args.defaults)) if fn.args.defaults else {}
+        for p_ in params:
+            if p_ not in sub_env and p_ in defaults and isinstance(defaults[p_], ast.Constant):
+                sub_env[p_] = defaults[p_].value
+        sub = AbsInt(calls=self.calls, program=prog, module=target.module, depth=self.depth + 1)
+        end = sub.run(body, sub_env)
+        if sub.undecided or sub.raised:
+            return _NO
+        rets = list(sub.returns) + ([None] if end is not None else [])
+        if len(rets) == 1:
+            return rets[0]
+        return _NO
 
     # ------------------------------------------------------------------ statements
     def run(self, stmts: list[ast.stmt], env: dict) -> dict | None:
@@ -295,7 +361,10 @@ class AbsInt:
                     elif isinstance(t, ast.Tuple):
                         for i, tt in enumerate(t.elts):
                             if isinstance(tt, ast.Name):
-                                env[tt.id] = v[i] if isinstance(v, tuple) and i < len(v) else UNKNOWN
+                                if isinstance(v, Rec) and '_order' in v and i < len(v['_order']):
+                                    env[tt.id] = v[v['_order'][i]]
+                                else:
+                                    env[tt.id] = v[i] if isinstance(v, tuple) and i < len(v) else UNKNOWN
             elif isinstance(st, ast.AugAssign):
                 if isinstance(st.target, ast.Name):
                     cur, rhs = env.get(st.target.id, UNKNOWN), self.ev(st.value, env)
